@@ -86,7 +86,7 @@ pub fn run(world: &World) -> Verdict {
         }
         let mask = match t.draw(3) {
             0 => 0,
-            _ => 1 + t.draw(63) as u32,
+            _ => 1 + t.draw(127) as u32,
         };
         set_call_spelling(mask);
         let suspends = t.draw(3) == 2;
